@@ -41,7 +41,11 @@ use dmntk_feel::values::Value;
 use dmntk_feel::{value_null, Name};
 use dmntk_model::model::Definitions;
 use std::collections::HashMap;
-use std::sync::{Arc, RwLock, RwLockReadGuard};
+#[cfg(dmntk_verif)]
+use crate::verif::{RwLock, RwLockReadGuard};
+use std::sync::Arc;
+#[cfg(not(dmntk_verif))]
+use std::sync::{RwLock, RwLockReadGuard};
 
 ///
 #[derive(Debug)]
@@ -72,6 +76,22 @@ pub struct ModelEvaluator {
   decision_service_evaluator: RwLock<DecisionServiceEvaluator>,
   /// Map of [InvocableType] indexed by invocable (decision, business knowledge model or decision service) name.
   invocable_by_name: RwLock<HashMap<String, InvocableType>>,
+}
+
+#[cfg(dmntk_verif)]
+impl ModelEvaluator {
+  /// Verification hook H4: is any of the evaluator's locks poisoned?
+  pub fn verif_poisoned(&self) -> bool {
+    self.input_data_evaluator.is_poisoned()
+      || self.input_data_context_evaluator.is_poisoned()
+      || self.item_definition_evaluator.is_poisoned()
+      || self.item_definition_context_evaluator.is_poisoned()
+      || self.item_definition_type_evaluator.is_poisoned()
+      || self.business_knowledge_model_evaluator.is_poisoned()
+      || self.decision_evaluator.is_poisoned()
+      || self.decision_service_evaluator.is_poisoned()
+      || self.invocable_by_name.is_poisoned()
+  }
 }
 
 impl ModelEvaluator {
